@@ -9,7 +9,6 @@ import (
 	"hash/fnv"
 	"os"
 	"path/filepath"
-	"sort"
 	"strconv"
 	"sync"
 	"time"
@@ -235,13 +234,11 @@ func Finish(spec Spec, tier string, seed int64, res *Result, start time.Time) in
 	known := LoadKnownFindings()
 	var unknown []Violation
 	knownHit := map[string]int{}
-	knownWhat := map[string]string{}
 	for _, v := range res.Violations {
 		matched := false
 		for _, k := range known {
 			if k.Status == "known" && k.Property == v.Property && k.Signature != "" && k.Signature == v.Signature {
 				knownHit[k.Signature]++
-				knownWhat[k.Signature] = k.What
 				matched = true
 				break
 			}
@@ -295,13 +292,11 @@ func Finish(spec Spec, tier string, seed int64, res *Result, start time.Time) in
 		fmt.Fprintf(os.Stderr, "cannot write evidence: %v\n", err)
 	}
 
-	sigs := make([]string, 0, len(knownHit))
-	for s := range knownHit {
-		sigs = append(sigs, s)
-	}
-	sort.Strings(sigs)
-	for _, s := range sigs {
-		fmt.Printf("KNOWN-FINDING: property=%s %s (signature %s, observed %d times)\n", spec.ID, knownWhat[s], s, knownHit[s])
+	// one line per listed known finding of this property (with how often this run observed it)
+	for _, k := range known {
+		if k.Status == "known" && k.Property == spec.ID {
+			fmt.Printf("KNOWN-FINDING: property=%s %s (signature %s, observed %d times in this run)\n", spec.ID, k.What, k.Signature, knownHit[k.Signature])
+		}
 	}
 
 	if len(unknown) > 0 {
